@@ -4,6 +4,7 @@ import (
 	"fmt"
 	"go/token"
 	"go/types"
+	"path/filepath"
 	"strings"
 
 	"golang.org/x/tools/go/ssa"
@@ -163,6 +164,34 @@ func (x *Exec) nilCheckIface(fr *frame, s *State, v Value, pos token.Pos) {
 }
 
 func (x *Exec) callFunction(fr *frame, s *State, callee *ssa.Function, args []Value, bindings []Value, pos token.Pos) []Value {
+	if fr.contract != nil && len(fr.contract.AtCalls) > 0 {
+		key := x.E.fnKey(callee)
+		for k, ac := range fr.contract.AtCalls {
+			if ac.Callee != key {
+				continue
+			}
+			env := x.invEnv(fr, s)
+			// a call site where the locals the assertion names are not in scope is not the anchored one
+			prop, ok := func() (t Term, ok bool) {
+				defer func() {
+					if r := recover(); r != nil {
+						if u, isU := r.(unsupported); isU && strings.Contains(u.msg, "unknown identifier") {
+							ok = false
+							return
+						}
+						panic(r)
+					}
+				}()
+				return env.evalBool(ac.Expr), true
+			}()
+			if !ok {
+				continue
+			}
+			ac.Hits++
+			x.obligeKnown(env, fmt.Sprintf("%s#atcall%d.%d", x.C.Unit, k, x.bump(fr, fmt.Sprintf("atcall%d", k))), "atcall",
+				fmt.Sprintf("%s:%d", filepath.Base(ac.File), ac.Line), "before "+ac.Callee+": "+ac.Text, s.Reach, prop)
+		}
+	}
 	if res, ok := x.stdlibModel(fr, s, callee, args, pos, false); ok {
 		return res
 	}
@@ -296,6 +325,12 @@ func (x *Exec) applyContract(fr *frame, s *State, ct *Contract, callee *ssa.Func
 		// invoke: receiver is args[0] named recv
 	}
 	for k, rq := range ct.Requires {
+		if !x.safety {
+			// units verified without safety obligations assume their callees' preconditions
+			x.C.Assume(Implies(s.Reach, env.evalBool(rq.Expr)))
+			x.C.Trusted["callee preconditions are assumed (not checked) in units marked nosafety"] = true
+			continue
+		}
 		x.C.Oblige(fmt.Sprintf("%s#call.%s.requires%d.%d", shortFn(fr.fn), sanitize(ct.Key), k, x.bump(fr, "callreq"+ct.Key)), "requires", x.pos(pos), rq.Text, s.Reach, env.evalBool(rq.Expr))
 	}
 	pre := s.Clone()
